@@ -1,4 +1,4 @@
-import ProductMD.Proofs.CIFixpoint
+import ProductMD.Proofs.CINormal
 /-!
 # C01 — composeinfo survives a write/read cycle unchanged
 
@@ -144,6 +144,100 @@ theorem C01_loads (ci : ComposeInfo) (j : PyVal) (hk : WellKeyed ci) (hu : UidsD
     (h : serialize ci = .ok j) (hv : validateClass "composeinfo.ComposeInfo" [] = .ok ()) : loadsDoc j = .ok ci.norm := by
   simp only [loadsDoc, C01_readback ci j hk hu h, hv]
 
+/-- **Normal form, identity.** On a description that already has the shape the reader returns (`Normal`, decidable:
+final only with a label, lower-case release type, base product only when layered, top level sorted by UID, every variant
+keyed by id with sorted arches, stored-form paths, release only on layered products, children sorted by id) `norm` does
+nothing. -/
+theorem C01_norm_id (ci : ComposeInfo) (h : Normal ci) : ci.norm = ci := by
+  obtain ⟨compose, release, base, variants⟩ := ci
+  obtain ⟨hfin, hlab, hlow, hbase, hsorted, hnl⟩ := h
+  simp only at hfin hlab hlow hbase hsorted hnl
+  have hc : compose.norm = compose := by
+    obtain ⟨id, type, date, respin, label, final⟩ := compose
+    simp only at hfin hlab
+    cases label with
+    | none => simp [Compose.norm, hfin rfl]
+    | some l =>
+      cases l with
+      | nil => exact absurd rfl hlab
+      | cons ch cs => simp [Compose.norm]
+  have hr : release.norm = release := by
+    obtain ⟨name, short, version, type, lay, int⟩ := release
+    simp only at hlow
+    simp [Release.norm, hlow]
+  have hv : normTop variants = variants := by
+    unfold normTop
+    rw [norms_of_normal variants hnl, sortDedup_of_sorted hsorted]
+    exact pickUid_self variants hsorted.nodup
+  simp only [ComposeInfo.norm, hc, hr, hv]
+  cases hlay : release.isLayered with
+  | true => simp
+  | false => simp [hbase hlay]
+
+/-- **Normal form, what it keeps (sections).** Only the documented normalisations happen: `final` is dropped without a
+label (an empty label counts as none), the release type is case-folded, the base product is dropped unless layered. -/
+theorem C01_norm_sections (ci : ComposeInfo) :
+    ci.norm.compose.id = ci.compose.id ∧ ci.norm.compose.type = ci.compose.type ∧ ci.norm.compose.date = ci.compose.date ∧
+    ci.norm.compose.respin = ci.compose.respin ∧
+    (∀ ch cs, ci.compose.label = some (ch :: cs) → ci.norm.compose.label = ci.compose.label ∧ ci.norm.compose.final = ci.compose.final) ∧
+    ((ci.compose.label = none ∨ ci.compose.label = some []) → ci.norm.compose.label = none ∧ ci.norm.compose.final = false) ∧
+    ci.norm.release.name = ci.release.name ∧ ci.norm.release.short = ci.release.short ∧
+    ci.norm.release.version = ci.release.version ∧ ci.norm.release.type = Str.lowerAscii ci.release.type ∧
+    ci.norm.release.isLayered = ci.release.isLayered ∧ ci.norm.release.internal = ci.release.internal ∧
+    (ci.release.isLayered = true → ci.norm.base = ci.base) ∧ (ci.release.isLayered = false → ci.norm.base = none) := by
+  obtain ⟨⟨id, type, date, respin, label, final⟩, release, base, variants⟩ := ci
+  refine ⟨rfl, rfl, rfl, rfl, ?_, ?_, rfl, rfl, rfl, rfl, rfl, rfl, ?_, ?_⟩
+  · intro ch cs h
+    simp only at h
+    simp [ComposeInfo.norm, Compose.norm, h]
+  · intro h
+    simp only at h
+    rcases h with h | h <;> simp [ComposeInfo.norm, Compose.norm, h]
+  · intro h; simp only at h; simp [ComposeInfo.norm, h]
+  · intro h; simp only at h; simp [ComposeInfo.norm, h]
+
+/-- **Normal form, what it keeps (variants).** Identity fields are untouched, the arch set is the same set, a path is kept
+exactly when its category is one of the generated `_fields`, its arch is one of the variant's own and it is not empty. -/
+theorem C01_norm_variant (v : Variant) :
+    v.norm.id = v.id ∧ v.norm.uid = v.uid ∧ v.norm.name = v.name ∧ v.norm.type = v.type ∧ v.norm.key = v.id ∧
+    (∀ a, a ∈ v.norm.arches ↔ a ∈ v.arches) ∧
+    v.norm.paths = storedPaths (Str.sortDedup v.arches) v.paths ∧
+    (v.type ≠ layeredProduct → v.norm.release = none) ∧
+    (v.type = layeredProduct → v.norm.release = v.release.map fun r => { r with isLayered := true, type := Str.lowerAscii r.type }) := by
+  cases v with
+  | mk key id uid name type arches paths rel kids =>
+  refine ⟨rfl, rfl, rfl, rfl, rfl, fun a => mem_sortDedup, rfl, ?_, ?_⟩
+  · intro h; simp only [Variant.type] at h; simp [Variant.norm, Variant.release, h]
+  · intro h; simp only [Variant.type] at h; simp [Variant.norm, Variant.release, h, forceLayered, Release.norm]
+
+/-- what `storedPaths` keeps, cell by cell -/
+theorem C01_stored_path (arches : List Str) (p : PathTable) (cat a : Str)
+    (hc : cat ∈ Gen.COMPOSEINFO_PATH_FIELDS) (ha : a ∈ arches) :
+    pathAt (storedPaths arches p) cat a = (match pathAt p cat a with | some v => if v = [] then none else some v | none => none) := by
+  unfold pathAt
+  have hsp : storedPaths arches p = Gen.COMPOSEINFO_PATH_FIELDS.map fun c => (c, arches.filterMap fun a =>
+      match pathAt p c a with
+      | some v => if v = [] then none else some (a, v)
+      | none => none) := rfl
+  rw [hsp, lookup_map_self _ cat _ hc]
+  simp only
+  rw [lookup_filterMap_cell _ _ a arches ha]
+  · unfold pathAt
+    cases lookup cat p with
+    | none => rfl
+    | some t =>
+      simp only
+      cases lookup a t with
+      | none => rfl
+      | some v => by_cases hv : v = [] <;> simp [hv]
+  · intro a' x hx
+    split at hx
+    · split at hx
+      · cases hx
+      · cases hx; rfl
+    · cases hx
+
+
 /-! ### non-vacuity: a layered compose with a label, a depth-3 forest, a layered-product variant with its own release,
 a dashed top-level UID, stray and empty paths -/
 def CI.exRelease : Release := { name := k%"Fedora", short := k%"F", version := k%"22", type := k%"ga", isLayered := true, internal := true }
@@ -162,6 +256,7 @@ def CI.exCI : ComposeInfo :=
        .mk k%"ClientX" k%"ClientX" k%"Client-X" k%"Client" k%"variant" [k%"x86_64"] [] none []] }
 
 example : WellKeyed exCI ∧ UidsDistinct exCI ∧ isOk (serialize exCI) = true := by decide +kernel
+example : Normal exCI.norm ∧ ¬ Normal exCI := by decide +kernel
 example : exCI.norm ≠ exCI := by
   intro h
   have := congrArg (fun c => (c.variants.map Variant.uid)) h
